@@ -132,7 +132,7 @@ static const Bound BOUNDS[FN_COUNT] = {
     /*sinh*/ { 3.5, 2.5 }, /*cosh*/ { 3.5, 2.5 }, /*tanh*/ { 2.0, 2.0 }, /*asinh*/ { 4.5, 2.5 }, /*acosh*/ { 3.0, 3.0 }, /*atanh*/ { 2.5, 2.5 },
     /*cbrt*/ { 1.0, 1.0 }, /*erf*/ { 3.5, 96 }, /*erfc*/ { 128, 48 }, /*tgamma*/ { 14, 16 }, /*lgamma*/ { 8, 8 },
     /*sincos*/ { 3.0, 3.0 }, /*atan2*/ { 3.5, 3.5 }, /*hypot*/ { 2.0, 2.0 }, /*pow*/ { 4.0, 4.0 },
-    { 0, 0 }, { 0, 0 }, { 0, 0 }, { 0, 0 }
+    { 0, 0 }, { 0, 0 }, { 0, 0 }, { 0, 0 }, { 0, 0 }
 };
 // the bound that applies to one evaluation (some are piecewise in the argument)
 template <class T>
